@@ -65,6 +65,11 @@ def peers_for(tb, tier, rnd):
     P.append(dict(kex=['curve25519-sha256', 'foo-kex@example.org'], key=['ssh-ed25519', 'ssh-rsa-cert-v01@openssh.com'],
                   enc=['aes128-ctr', 'foo-cipher'], mac=['umac-128-etm@openssh.com'],
                   hk={'ssh-rsa-cert-v01@openssh.com': (2048, 'ssh-rsa', 1024)}))
+    # the two directions of a server's KEXINIT differ: the report (and its recommendations) is about the server-to-client lists
+    P.append(dict(kex=['curve25519-sha256'], key=['ssh-ed25519'], enc=['aes128-ctr', '3des-cbc', 'aes128-cbc'], mac=['hmac-sha2-256-etm@openssh.com', 'hmac-sha1'],
+                  enc_c2s=['aes128-ctr'], mac_c2s=['hmac-sha2-256']))
+    P.append(dict(kex=['curve25519-sha256', 'kex-strict-s-v00@openssh.com'], key=['ssh-ed25519'], enc=['aes256-gcm@openssh.com'], mac=['hmac-sha2-512'],
+                  enc_c2s=['chacha20-poly1305@openssh.com', 'aes256-cbc'], mac_c2s=['hmac-sha1-etm@openssh.com']))
     n = 3 if tier == 'quick' else 15
     for _ in range(n):
         P.append(dict(kex=pick('kex', rnd.randint(1, 5)), key=pick('key', rnd.randint(1, 4)), enc=pick('enc', rnd.randint(1, 5)),
@@ -79,10 +84,11 @@ def build(tier, rnd, tb):
     for pi, p in enumerate(peers_):
         # quick: each peer meets a third of the banners (rotating), the first two peers meet them all
         for si, sw in enumerate(sws):
-            if tier == 'quick' and pi >= 2 and (si + pi) % 3 != 0:
+            if tier == 'quick' and pi >= 2 and 'enc_c2s' not in p and (si + pi) % 3 != 0:
                 continue
             dh = dict(p.get('dh', {}))
-            c = rating.mk_case(len(cases) + 1, kex=p['kex'], key=p['key'], enc=p['enc'], mac=p['mac'], hk=p.get('hk'), dh=dh, sw=sw)
+            c = rating.mk_case(len(cases) + 1, kex=p['kex'], key=p['key'], enc=p['enc'], mac=p['mac'], hk=p.get('hk'), dh=dh, sw=sw,
+                               enc_c2s=p.get('enc_c2s'), mac_c2s=p.get('mac_c2s'))
             cases.append(c)
     return cases
 
